@@ -285,7 +285,7 @@ theorem nested_alive_iff_handle (h : Heap) (hI : Inv h []) (o : Nat) :
 
 /-- **nested_destroyed_exactly_when_unreferenced.**  On every heap the harness can build and after every program: an object's
     storage is allocated **iff** at least one handle — in a program variable or stored in a live object — points at it.
-    (`Inv` alone would admit a leaked object with count 0 and no handle; the positive-count invariant `Pos` excludes it:
+    (`Inv` alone would allow a leaked object with count 0 and no handle; the positive-count invariant `Pos` excludes it:
     the object is released by the very decrement that drops its last handle, not later and not never.) -/
 theorem nested_destroyed_exactly_when_unreferenced (descr : List (List Nat)) (roots : List Nat)
     (hw : wfDescr descr roots = true) (ops : List Op) (o : Nat) :
